@@ -36,7 +36,7 @@ func init() {
 		Stages: []*fw.Stage{
 			{
 				Name: "sweep",
-				N:    func(t fw.Tier) uint64 { return sweepTotal() * map[fw.Tier]uint64{fw.Quick: 40, fw.Thorough: 600}[t] },
+				N:    func(t fw.Tier) uint64 { return sweepTotal() * map[fw.Tier]uint64{fw.Quick: 40, fw.Thorough: 1500}[t] },
 				Run: func(c *fw.Case) {
 					k := int(c.Idx % sweepTotal())
 					for _, t := range ts().Types {
@@ -52,7 +52,7 @@ func init() {
 			},
 			{
 				Name: "random",
-				N:    q(600000, 20000000),
+				N:    q(600000, 50000000),
 				Run:  func(c *fw.Case) { c02Case(c, typeIdx(ts(), c.Idx), -1, 0, nil) },
 			},
 			{
